@@ -50,11 +50,11 @@ def cases(tier, rng):
         [(1 << 31) + 5, (1 << 31) + 5, 7], [3 * G, G + 1000, 0],
     ]
     for lens in over:
-        yield big_case(lens, 40, "over-limit-refused")
+        yield big_case(lens, 15, "over-limit-refused")      # refused at once on a conforming tree; the watchdog only bounds a violating one
     if thorough and shutil.disk_usage(tempfile.gettempdir()).free > (12 << 30):
         yield big_case([(1 << 31) - 46, (1 << 31) - 47], 600, "ends-at-limit-accepted")     # total = 2^32 - 1
     # far below the limit the same shape succeeds (keeps the refusals above from being vacuous on a tree that refuses everything)
-    yield big_case([1 << 27], 120, "well-below-limit-accepted")
+    yield big_case([1 << 26], 120, "well-below-limit-accepted")
     if thorough: yield big_case([1 << 28, 1 << 27, 5], 200, "well-below-limit-accepted")
     # names
     for n in (b"abcdefgh", b"A2345678", b"________"):
